@@ -298,6 +298,9 @@ mutant("c07-revert-static-fallback", "C07", PS, '                               
 mutant("c07-input-signature-without-dtype", "C07", PS, "            in_sigs.append((shape, str(dtype)))", "            in_sigs.append((shape,))", expect="input-signature")
 mutant("c07-input-signature-rank-only", "C07", PS, "            in_sigs.append((shape, str(dtype)))", "            in_sigs.append((len(getattr(aval, 'shape', ())), str(dtype)))", expect="input-signature")
 mutant("c07-const-capture-python-hash-for-scalars", "C07", PS, "                hash(arr.tobytes()),\n", "                hash(arr.item()) if arr.ndim == 0 else hash(arr.tobytes()),\n", expect="python-hash")
+mutant("c01-dot-general-gemm-ignores-lhs-contracting-axis", "C01", "jax2onnx/plugins/jax/lax/dot_general.py", "        if lhs_contract_axis == 0:\n            # Gemm contracts A's last axis; the lhs contracts its first one.\n            gemm_attrs[\"transA\"] = 1\n", "", expect="R-C01j")
+multi("c01-dot-general-gemm-lhs-axis-unchecked", "C01", "mutant", [("jax2onnx/plugins/jax/lax/dot_general.py", "        lhs_contract_axis = lhs_contract[0]\n        if lhs_contract_axis not in (0, 1):\n            return False\n", ""), ("jax2onnx/plugins/jax/lax/dot_general.py", "        if lhs_contract_axis == 0:\n            # Gemm contracts A's last axis; the lhs contracts its first one.\n            gemm_attrs[\"transA\"] = 1\n", "")], expect="R-C01j")
+benign("c01-benign-dot-general-transA-always-set", "C01", "jax2onnx/plugins/jax/lax/dot_general.py", "        gemm_attrs: dict[str, Any] = {\"alpha\": 1.0, \"beta\": 0.0}\n        if lhs_contract_axis == 0:\n            # Gemm contracts A's last axis; the lhs contracts its first one.\n            gemm_attrs[\"transA\"] = 1\n", "        gemm_attrs: dict[str, Any] = {\"alpha\": 1.0, \"beta\": 0.0, \"transA\": int(lhs_contract_axis == 0)}\n")
 mutant("c01-function-key-merges-minus-one-and-minus-two", "C01", PS, "                hash(arr.tobytes()),\n", "                hash(value) if isinstance(value, (int, float)) else hash(arr.tobytes()),\n", expect="R-C01i")
 benign("c07-benign-const-capture-raw-bytes", "C07", PS, "                hash(arr.tobytes()),\n", "                arr.tobytes(),\n")
 mutant("c07-const-capture-without-bytes", "C07", PS, "                str(arr.dtype),\n                hash(arr.tobytes()),\n            )", "                str(arr.dtype),\n            )", expect="_capture_const")
@@ -327,6 +330,10 @@ mutant("c06-fori-trip-count-ignores-lower", "C06", FLF, "        trip_count = in
 mutant("c06-fori-index-offset-dropped", "C06", FLF, "    if lower != 0:\n        lower_const = _scalar_i64(body_ctx, int(lower), \"fori_lower\")", "    if lower != 0 and False:\n        lower_const = _scalar_i64(body_ctx, int(lower), \"fori_lower\")", expect="R-C06e")
 mutant("c06-fori-bind-lower-zero", "C06", FLF, "            lower=int(lower),\n        )\n        return tree_util.tree_unflatten(treedef, flat_result)", "            lower=0,\n        )\n        return tree_util.tree_unflatten(treedef, flat_result)", expect="R-C06e")
 mutant("c06-fori-index-offset-only-when-narrowing", "C06", FLF, "    if lower != 0:\n        lower_const = _scalar_i64(body_ctx, int(lower), \"fori_lower\")", "    if iter_enum != ir.DataType.INT64 and lower != 0:\n        lower_const = _scalar_i64(body_ctx, int(lower), \"fori_lower\")", expect="R-C06e")
+mutant("c19-dpa-default-length-read-from-heads-axis", "C19", "jax2onnx/plugins/jax/nn/dot_product_attention.py", "                    k_len = k.shape[1]\n", "                    k_len = k.shape[2]\n", expect="R-C19h")
+mutant("c19-dpa-user-mask-overwrites-window-mask", "C19", "jax2onnx/plugins/jax/nn/dot_product_attention.py", "            if mask_bool is None:\n                mask_bool = user_mask_bool\n            else:", "            if True:\n                mask_bool = user_mask_bool\n            else:", expect="R-C19g")
+mutant("c19-dpa-length-mask-overwrites-mask", "C19", "jax2onnx/plugins/jax/nn/dot_product_attention.py", "            if mask_bool is None:\n                mask_bool = length_mask_bool\n            else:", "            if mask_bool is None or True:\n                mask_bool = length_mask_bool\n            else:", expect="R-C19g")
+benign("c19-benign-dpa-default-length-negative-index", "C19", "jax2onnx/plugins/jax/nn/dot_product_attention.py", "                    k_len = k.shape[1]\n", "                    k_len = k.shape[-3]\n")
 mutant("c19-fori-lower-dropped-when-index-is-int64", "C19", FLF, "    if lower != 0:\n        lower_const = _scalar_i64(body_ctx, int(lower), \"fori_lower\")", "    if iter_enum != ir.DataType.INT64 and lower != 0:\n        lower_const = _scalar_i64(body_ctx, int(lower), \"fori_lower\")", expect="R-C19f")
 benign("c06-benign-fori-lower-compare-flipped", "C06", FLF, "    if lower != 0:\n        lower_const = _scalar_i64(body_ctx, int(lower), \"fori_lower\")", "    if 0 != lower:\n        lower_const = _scalar_i64(body_ctx, int(lower), \"fori_lower\")")
 benign("c06-benign-fori-lower-truthiness", "C06", FLF, "    if lower != 0:\n        lower_const = _scalar_i64(body_ctx, int(lower), \"fori_lower\")", "    if lower:\n        lower_const = _scalar_i64(body_ctx, int(lower), \"fori_lower\")")
